@@ -1,4 +1,4 @@
-import Usid.Model.Slice
+import Usid.Proofs.Cartesian
 /-! C07 — slicing returns exactly the selected elements, or refuses explicitly. -/
 namespace Usid.C07
 open Usid Usid.Slice Usid.Reshape
@@ -107,5 +107,110 @@ theorem two_lists_refused (view : NDArr α) (labels : List String) (sd : SliceDi
   split
   · rfl
   · rename_i h; exact absurd h2 h
+
+/-! ### element-level theorems -/
+
+theorem get2 (a : NDArr α) (n m r c : Nat) (hs : a.shape = [n, m]) : a.get [r, c] = a.flat.getD (r * m + c) default := by
+  unfold NDArr.get; rw [hs]; simp [ravelC]
+
+/-- **2-D slicing returns exactly the selected elements.**  Whenever the request is accepted, the result
+    has one row per selected position and one column per selected spectroscopic point (both in increasing
+    order, see `rows_exact`) and its element (i, j) is `main[rows[i], cols[j]]`. -/
+theorem slice2D_elements (main : NDArr α) (n m : Nat) (hshape : main.shape = [n, m])
+    (posInds specIndsT : List (List Nat)) (posLabs specLabs : List String) (posSizes specSizes : List Nat)
+    (sd : SliceDict) (rows cols : List Nat)
+    (h : posSpecSlices posInds specIndsT posLabs specLabs posSizes specSizes sd = .ok (rows, cols)) :
+    ∃ out, slice2D main posInds specIndsT posLabs specLabs posSizes specSizes sd true = .ok out ∧
+      out.shape = [rows.length, cols.length] ∧
+      ∀ i j (hi : i < rows.length) (hj : j < cols.length), out.get [i, j] = main.get [rows[i], cols[j]] := by
+  unfold slice2D
+  simp only [h, bind, Except.bind, pure, Except.pure, if_true]
+  refine ⟨_, rfl, rfl, ?_⟩
+  intro i j hi hj
+  rw [get2 _ rows.length cols.length i j rfl, get2 main n m _ _ hshape, hshape]
+  simp only [List.getD_cons_succ, List.getD_cons_zero]
+  rw [List.getD_eq_getElem?_getD,
+    flatMap_uniform_get (fun r => cols.map (fun c => main.flat.getD (r * m + c) default)) cols.length rows
+      (fun x _ => by simp) i j hi hj]
+  simp [List.getElem?_eq_getElem hj]
+
+/-- the selections behind the returned rows / columns: for every dimension either the whole range (not
+    mentioned in the dictionary) or the accepted expansion of its selector -/
+theorem posSpecSlices_selected (posInds specIndsT : List (List Nat)) (posLabs specLabs : List String)
+    (posSizes specSizes : List Nat) (sd : SliceDict) (rows cols : List Nat)
+    (h : posSpecSlices posInds specIndsT posLabs specLabs posSizes specSizes sd = .ok (rows, cols)) :
+    ∃ ps ss, rows = selectedRows posInds ps ∧ cols = selectedRows specIndsT ss ∧
+      ps.length = posLabs.length ∧ ss.length = specLabs.length ∧
+      (∀ d (hd : d < posLabs.length) (h2 : d < ps.length), match sd.lookup (posLabs.getD d "") with
+        | none => ps[d] = List.range (posSizes.getD d 0)
+        | some s => expandSel (posSizes.getD d 0) s = .ok ps[d]) ∧
+      (∀ d (hd : d < specLabs.length) (h2 : d < ss.length), match sd.lookup (specLabs.getD d "") with
+        | none => ss[d] = List.range (specSizes.getD d 0)
+        | some s => expandSel (specSizes.getD d 0) s = .ok ss[d]) := by
+  unfold posSpecSlices at h
+  simp only [bind, Except.bind, pure, Except.pure] at h
+  split at h
+  · cases h
+  · split at h
+    · cases h
+    · split at h
+      · cases h
+      · rename_i ps hps
+        split at h
+        · cases h
+        · rename_i ss hss
+          injection h with h
+          injection h with h1 h2
+          obtain ⟨hl1, hi1⟩ := mapME_ok _ _ ps hps
+          obtain ⟨hl2, hi2⟩ := mapME_ok _ _ ss hss
+          refine ⟨ps, ss, h1.symm, h2.symm, by simpa using hl1, by simpa using hl2, ?_, ?_⟩
+          · intro d hd h2'
+            have := hi1 d (by simpa using hd) h2'
+            simp only [List.getElem_range] at this
+            split at this
+            · rename_i hlk; simp only [hlk]; injection this with this; exact this.symm
+            · rename_i s hlk; simp only [hlk]; exact this
+          · intro d hd h2'
+            have := hi2 d (by simpa using hd) h2'
+            simp only [List.getElem_range] at this
+            split at this
+            · rename_i hlk; simp only [hlk]; injection this with this; exact this.symm
+            · rename_i s hlk; simp only [hlk]; exact this
+
+/-- **N-D slicing returns exactly the selected elements.**  Whenever the request is accepted there are
+    per-axis index lists `kept` (one per axis of the view: the single index of an integer selector, the
+    indices of a slice, the normalised entries of an index list) such that the result holds, in C order,
+    the view's element at every combination of the kept indices; integer axes are dropped from the shape. -/
+theorem sliceND_elements (view : NDArr α) (labels : List String) (sd : SliceDict) (out : NDArr α)
+    (h : sliceND view labels sd = .ok out) :
+    ∃ per : List (Option Nat × List Nat), per.length = labels.length ∧
+      (∀ ax (h1 : ax < labels.length) (h2 : ax < per.length),
+        axisSelect (view.shape.getD ax 0) ((sd.lookup labels[ax]).getD (Sel.slice none none none)) = .ok per[ax]) ∧
+      out.shape = (per.filter (fun p => p.1.isNone)).map (fun p => p.2.length) ∧
+      out.flat.length = ((per.map (·.2)).map List.length).prod ∧
+      ∀ js, InBounds ((per.map (·.2)).map List.length) js →
+        out.flat[ravelC ((per.map (·.2)).map List.length) js]? = some (view.get (pickIdx (per.map (·.2)) js)) := by
+  unfold sliceND at h
+  simp only [bind, Except.bind, pure, Except.pure] at h
+  split at h
+  · cases h
+  · split at h
+    · simp [throw, throwThe, MonadExceptOf.throw] at h
+    · split at h
+      · cases h
+      · rename_i per hper
+        injection h with h
+        obtain ⟨hl, hi⟩ := mapME_ok _ _ per hper
+        refine ⟨per, by simpa using hl, ?_, by rw [← h], ?_, ?_⟩
+        · intro ax h1 h2
+          have := hi ax (by simpa using h1) h2
+          simp only [List.getElem_range] at this
+          rw [← this]
+          congr 1
+          simp [List.getD_eq_getElem?_getD, List.getElem?_eq_getElem h1]
+        · rw [← h]; simp only [List.length_map]; exact cartesian_length' _
+        · intro js hb
+          rw [← h]
+          simp only [List.getElem?_map, cartesian_get _ js hb, Option.map_some]
 
 end Usid.C07
